@@ -156,7 +156,25 @@ func (a *Analyzer) execCall(ctx int, v *ssa.Call, s *State, depth int) []*State 
 			// the callee was already analysed at this site from a weaker (or
 			// equal) abstract state: its exits over-approximate this call
 			for _, e := range ce.exits {
-				exits = append(exits, Exit{s: e.s.clone(), results: e.results})
+				st := e.s.clone()
+				// the cached exits were computed from a weaker entry: everything
+				// the current entry knows about (immutable) terms still holds
+				st.cons = dedupe(append(st.cons, entry.cons...))
+				for _, d := range entry.dis {
+					st.addNE(d)
+				}
+				for _, f := range entry.bytes {
+					a.addByteFact(st, f)
+				}
+				for k, v := range entry.nilx {
+					if st.nilx[k] == 0 {
+						st.nilx[k] = v
+					}
+				}
+				if st.isDead() {
+					continue
+				}
+				exits = append(exits, Exit{s: st, results: e.results})
 			}
 			a.cacheHits++
 		} else {
@@ -311,6 +329,26 @@ func (a *Analyzer) execCall(ctx int, v *ssa.Call, s *State, depth int) []*State 
 				a.set(t, ctx, v, ATuple{rs})
 			}
 			out = append(out, t)
+		}
+		if a.NonNilResult != nil && nres == 1 && a.NonNilResult(v) {
+			// another analysis proved the result non-nil in every context
+			kept := out[:0]
+			for _, t := range out {
+				if a.trace {
+					fmt.Printf("DBG nonnil filter %s: %#v\n", v, t.vals[vkey{ctx, v}])
+				}
+				switch r := t.vals[vkey{ctx, v}].(type) {
+				case ANil:
+					continue
+				case ARef:
+					if t.nilx[r.id] == 1 {
+						continue
+					}
+					t.nilx[r.id] = 2
+				}
+				kept = append(kept, t)
+			}
+			out = kept
 		}
 		return out
 	}
